@@ -370,7 +370,7 @@ def splitEdge (ei : Nat) : SM α Unit := do
     let ae := s.active[ei]
     let to := ae.to
     let src := s.q.ed ae.srcEdge
-    let t := Sources.splitT ae.from_ to s.curPos
+    let t := Sources.splitTAtVertex ae.from_ to s.curPos
     let src' : EdgeData α := { src with t0 := Sources.remapT t src.t0 ae.rangeEnd }
     let r := s.q.pushUnlinked s.curPos src'
     let pe : PendingEdge α := ⟨to, slope (to - s.curPos), r.2, ae.winding, ae.rangeEnd⟩
@@ -504,7 +504,12 @@ def handleCoincidentEdgesBelow : SM α Unit := do
       let v := longTo - s.curPos
       let endsClose : Bool :=
         decide (abs (v.cross (shortTo - s.curPos)) ≤ s.tolerance * Wide.sqrt (v.x * v.x + v.y * v.y))
-      if close && endsClose then mergeCoincidentEdges idx (idx+1)
+      -- lyon fix "split parameters stay inside the edge": the shorter edge must not reach beyond the
+      -- longer one along the larger extent of the longer one
+      let sv := shortTo - s.curPos
+      let endsWithin : Bool :=
+        decide (abs v.x ≤ abs v.y) || (decide (sv.x * v.x ≥ zero) && decide (abs sv.x ≤ abs v.x))
+      if close && endsClose && endsWithin then mergeCoincidentEdges idx (idx+1)
     | _, _ => throw (.panic "edge below index out of range")
 
 /-- `split_event(left_enclosing_edge_idx, left_span_idx)` -/
